@@ -48,6 +48,7 @@ WITNESSES = [
     {"case": "sort", "items": [["i", 10], ["i", 9], ["f", 2.0], ["i", 2], ["i", -3]]},  # DESIGN §9
     {"case": "pair", "a": ["i", 10 ** 17], "b": ["i", 10 ** 17 + 1], "syms": []},
     {"case": "pair", "a": ["i", 1], "b": ["i", 2], "syms": [["a", "<"]]},
+    {"case": "pair", "a": ["s", "a b"], "b": ["s", "a"], "syms": []},
 ]
 SYM = {-1: "<", 0: "=", 1: ">"}
 ORD = {-1: "lt", 0: "eq", 1: "gt"}
